@@ -178,6 +178,110 @@ fn high_dim_membership(c: &Case, ctx: &mut Ctx) -> CaseResult {
     Ok(())
 }
 
+/// membership verdict with an explicit rounding allowance `e_i` per row: In when every slack exceeds e_i, Out when some
+/// slack is below -(1e-6 + e_i), unjudged otherwise
+fn classify_float(a: &AffQ, x: &[Q], scale: f64) -> Member {
+    let mut all_in = true;
+    let mut out = false;
+    for i in 0..a.outdim() {
+        let s = (&a.bias[i] - &qdot(&a.mat[i], x)).to_f64();
+        let l1: f64 = a.mat[i].iter().map(|v| v.to_f64().abs()).sum();
+        let e = 1e-11 * (l1 * scale + a.bias[i].to_f64().abs());
+        if !(s > e) {
+            all_in = false;
+        }
+        if s < -(1e-6 + e) {
+            out = true;
+        }
+    }
+    if out {
+        Member::Out
+    } else if all_in {
+        Member::In
+    } else {
+        Member::DeadZone
+    }
+}
+
+fn float_maps(c: &Case, ctx: &mut Ctx, p: &Polytope, pq: &AffQ, pts: &[Vec<f64>], t: &mut Tally) -> CaseResult {
+    let n = c.p.dim;
+    const TRIPLES: [(i64, i64, i64); 4] = [(3, 4, 5), (5, 12, 13), (8, 15, 17), (7, 24, 25)];
+    // deterministic choices from fields the case already has (old replay files stay valid)
+    let mut h = c.axis as u64 ^ 0x5851_F42D_4C95_7F2D;
+    for v in c.post_bias.iter().chain(c.d.iter()) {
+        h = (h ^ v.to_bits()).wrapping_mul(0x0000_0100_0000_01B3).rotate_left(19);
+    }
+    let mut next = |m: u64| {
+        h = h.wrapping_mul(6364136223846793005).wrapping_add(1442695040888963407);
+        (h >> 33) % m
+    };
+    // R = G_k ... G_1 (exact rationals)
+    let mut r: Vec<QVec> = (0..n).map(|i| (0..n).map(|j| if i == j { Q::one() } else { Q::zero() }).collect()).collect();
+    let steps = 1 + next(3) as usize;
+    for _ in 0..steps {
+        let i = next(n as u64) as usize;
+        let mut j = next(n as u64 - 1) as usize;
+        if j >= i {
+            j += 1;
+        }
+        let (a, b, cc) = TRIPLES[next(4) as usize];
+        let (co, si) = (Q::frac(a, cc), Q::frac(if next(2) == 0 { b } else { -b }, cc));
+        // rows i and j of R are replaced by co*Ri - si*Rj and si*Ri + co*Rj
+        let (ri, rj) = (r[i].clone(), r[j].clone());
+        for k in 0..n {
+            r[i][k] = &(&co * &ri[k]) - &(&si * &rj[k]);
+            r[j][k] = &(&si * &ri[k]) + &(&co * &rj[k]);
+        }
+    }
+    let rq = AffQ::new(r.clone(), vec![Q::zero(); n], n);
+    let mut rt = vec![vec![Q::zero(); n]; n];
+    for i in 0..n {
+        for j in 0..n {
+            rt[j][i] = r[i][j].clone();
+        }
+    }
+    let rtq = AffQ::new(rt.clone(), vec![Q::zero(); n], n);
+    let rf = Mat { rows: r.iter().map(|row| row.iter().map(|v| v.to_f64()).collect()).collect(), cols: n };
+    ctx.class("float_rotation");
+    let rot = must("rotate (float rotation)", || p.rotate(&rf.to_array()))?;
+    let maxabs = |v: &[Q]| v.iter().map(|q| q.to_f64().abs()).fold(0.0, f64::max);
+    for x in pts {
+        let xq = qv(x);
+        // the rounded image of x, judged through its own exact pre-image
+        let imgf: Vec<f64> = rq.apply(&xq).iter().map(|v| v.to_f64()).collect();
+        for y in [imgf, x.clone()] {
+            let yq = qv(&y);
+            let pre = rtq.apply(&yq);
+            let m = classify_float(pq, &pre, (n * n) as f64 * (1.0 + maxabs(&yq)));
+            judge("P.rotate(R) with a non-representable rotation R", guard(|| rot.contains(&arr(&y))), m, &yq, t)?;
+        }
+    }
+    // apply_post with inverse = D^-1 R^T (D diagonal, entries 3, 5, 7, 1/2, -3): the map is y = R D x + c
+    const DIAG: [(i64, i64); 5] = [(3, 1), (5, 1), (7, 1), (1, 2), (-3, 1)];
+    let d: Vec<Q> = (0..n).map(|_| { let (a, b) = DIAG[next(5) as usize]; Q::frac(a, b) }).collect();
+    let minv: Vec<QVec> = (0..n).map(|i| (0..n).map(|j| &rt[i][j] / &d[i]).collect()).collect();
+    let minvq = AffQ::new(minv.clone(), vec![Q::zero(); n], n);
+    let minvf = Mat { rows: minv.iter().map(|row| row.iter().map(|v| v.to_f64()).collect()).collect(), cols: n };
+    let cq = qv(&c.post_bias);
+    let post = must("apply_post (float inverse)", || p.apply_post(&minvf.to_array(), &arr(&c.post_bias)))?;
+    let minv_max = minv.iter().map(|row| maxabs(row)).fold(0.0, f64::max).max(1.0);
+    for x in pts {
+        let xq = qv(x);
+        // image R D x + c, rounded
+        let dx: QVec = xq.iter().zip(&d).map(|(a, b)| a * b).collect();
+        let imgf: Vec<f64> = rq.apply(&dx).iter().zip(&cq).map(|(a, b)| (a + b).to_f64()).collect();
+        for y in [imgf, x.clone()] {
+            let yq = qv(&y);
+            let ymc: QVec = yq.iter().zip(&cq).map(|(a, b)| a - b).collect();
+            let pre = minvq.apply(&ymc);
+            let scale = (n * n) as f64 * minv_max * (1.0 + maxabs(&yq) + maxabs(&cq));
+            let m = classify_float(pq, &pre, scale);
+            judge("P.apply_post(M^-1, c) with a non-representable inverse", guard(|| post.contains(&arr(&y))), m, &yq, t)?;
+        }
+    }
+    Ok(())
+}
+
 pub fn run_case(c: &Case, ctx: &mut Ctx) -> CaseResult {
     let n = c.p.dim;
     let k = c.pre.indim();
@@ -310,6 +414,14 @@ pub fn run_case(c: &Case, ctx: &mut Ctx) -> CaseResult {
         }
         let pre = AffQ::new(rt, vec![Q::zero(); n], n).apply(&xq);
         judge("P.rotate(R) at an arbitrary point", guard(|| rot.contains(&arr(x))), classify(&min_slack(&pq, &pre)), &xq, &mut t)?;
+    }
+
+    // float regime (as-built delta): rotations that are NOT exactly representable - products of Givens rotations
+    // with Pythagorean cosines/sines (3/5,4/5), (5/13,12/13), (8/17,15/17), (7/25,24/25), optionally followed by a
+    // diagonal scaling with 1/3, 1/5, 1/7 for apply_post.  The exact rational matrix is the oracle, its f64 rounding
+    // is what the library gets; a point is judged only when its exact slack clears an explicit rounding bound.
+    if n >= 2 {
+        float_maps(c, ctx, &p, &pq, &pts, &mut t)?;
     }
 
     // data-sized dimensions (1 case in 48): membership in boxes of dimension 200..1200, at points that are outside /
@@ -481,7 +593,7 @@ impl Property for C14 {
     fn assumptions(&self) -> Vec<String> {
         vec![
             "contains() tolerance 1e-8 on the raw distance (documented): must be true for exact slack >= 0, false for slack < -1e-6, unjudged in between (unreachable with dyadic data; counted)".into(),
-            "apply_post/rotate are checked with exactly invertible integer maps (floating rotations are not generated in this tier)".into(),
+            "apply_post/rotate: exact verdicts (boundary included) with exactly invertible integer maps; non-representable rotations (Givens products with Pythagorean entries) and inverses (with 1/3, 1/5, 1/7 scalings) are judged only where the exact slack clears an explicit rounding bound".into(),
             "simplex(d) is checked definitionally in f64 with 1e-9 tolerance (its coefficients are irrational)".into(),
             "hyperrectangle/axis_bounds get lower <= upper".into(),
         ]
